@@ -220,8 +220,83 @@ def run_one(tls, selector_name, kind):
     return result
 
 
+def run_abrupt(selector_name, nframes=3):
+    """The peer writes its last frames and is gone at once (a closed socketpair end: poll() then reports POLLIN together
+    with POLLHUP).  Everything that was written had arrived before the connection ended, so all of it must be delivered
+    before Disconnected.  Single-threaded and deterministic: the event iterator is driven by hand up to the first Poll,
+    then the peer writes and closes, then the iteration goes on."""
+    from lomond import selectors
+    from lomond.session import WebsocketSession
+    from lomond.websocket import WebSocket
+
+    a, b = socket.socketpair()
+    a.settimeout(10)
+    b.settimeout(10)
+
+    class PairSession(WebsocketSession):
+        _selector_cls = getattr(selectors, selector_name)
+
+        def _connect(self):
+            return a, None
+
+    result = {"transport": "unix_socketpair", "selector": selector_name, "burst": "last_frames_then_peer_gone",
+              "frames_expected": nframes, "frames_received": 0, "stall": None, "inconclusive": None}
+    t0 = time.time()
+
+    def handshake():
+        try:
+            req = b""
+            while b"\r\n\r\n" not in req:
+                chunk = b.recv(4096)
+                if not chunk:
+                    return
+                req += chunk
+            key = [ln.split(b":", 1)[1].strip() for ln in req.split(b"\r\n") if ln.lower().startswith(b"sec-websocket-key")][0]
+            accept = base64.b64encode(hashlib.sha1(key + GUID).digest())
+            b.sendall(b"HTTP/1.1 101 Switching Protocols\r\nUpgrade: websocket\r\nConnection: Upgrade\r\n"
+                      b"Sec-WebSocket-Accept: " + accept + b"\r\n\r\n")
+        except Exception as error:
+            result["server_error"] = "%s: %s" % (type(error).__name__, error)
+
+    helper = threading.Thread(target=handshake, daemon=True)
+    helper.start()
+    try:
+        ws = WebSocket("ws://pair.test/", proxies={})
+        gen = ws.connect(session_class=PairSession, poll=2, ping_rate=0, close_timeout=2)
+        names = []
+        sent = False
+        for ev in gen:
+            names.append(ev.name)
+            if ev.name in ("text", "binary"):
+                result["frames_received"] += 1
+            if ev.name == "poll" and not sent:
+                sent = True
+                helper.join(5)
+                b.sendall(b"".join(frame(1, ("last words %d" % i).encode()) for i in range(nframes)))
+                b.close()
+            if time.time() - t0 > BUDGET or len(names) > 200:
+                result["inconclusive"] = "no end of the connection within the budget; events %s" % names[-8:]
+                break
+        result["events"] = names[-12:]
+        if not sent and not result["inconclusive"]:
+            result["inconclusive"] = "the connection never reached its first Poll: %s" % names
+    except Exception as error:
+        result["client_error"] = "%s: %s" % (type(error).__name__, error)
+    finally:
+        for s_ in (a, b):
+            try:
+                s_.close()
+            except Exception:
+                pass
+    result["wall_s"] = round(time.time() - t0, 3)
+    result.setdefault("server_error", None)
+    return result
+
+
 def main():
     out = []
+    for sel in ("PollSelector", "SelectSelector"):
+        out.append(run_abrupt(sel))
     for tls in (False, True):
         for sel in ("PollSelector", "SelectSelector"):
             for kind in ("many_small", "few_large"):
